@@ -488,3 +488,49 @@ impl MainState {
         proof { assert(string_of(chname_str@) == sk(*chname_str)); }
 //@end
 }
+
+// ===== CONTRACT: what the joiner itself is told (C04: the joiner gets its own JOIN line, the topic and the roster) =====
+// The body of the announcement loop as a block of its own (proved here only; the handler keeps its own proof of the other members' copies).
+impl MainState {
+//@block state/channel_cmds.rs MainState::process_join join_tell_joiner unit=joinreply props=C04,C05 rules=R2,R6,R10 loopbody=~|for \(\(join, _\), chname_str\) in joined_created|
+//@head
+    pub async fn join_tell_joiner<'a>(&self, state: &VolatileState, conn_state: &mut ConnState, join: &bool, chname_str: &&'a str, user_nick: String,
+            Tracked(outbox): Tracked<&mut Outbox>) -> (r: Result<(), HErr>)
+//@epilogue
+            Ok(())
+//@spec
+        requires
+            state_wf(*state), old(conn_state).user_state.nick is Some, user_nick == my_nick(*old(conn_state)),
+            *join ==> member(*state, user_nick, sk(*chname_str)),
+        ensures
+            conn_same_but_stream(*final(conn_state), *old(conn_state)), // @prop C04
+            !*join ==> final(conn_state).stream.log() == old(conn_state).stream.log() && final(outbox).log == old(outbox).log, // @prop C04,C07
+            // an admitted JOIN: the joiner's own connection gets, first, the JOIN line under its own prefix, then the topic if there is one
+            r is Ok && *join ==> ({
+                let l0 = old(conn_state).stream.log(); let l1 = final(conn_state).stream.log();
+                let ch = state.channels@[sk(*chname_str)];
+                &&& l1.len() > l0.len() && (forall|k: int| 0 <= k < l0.len() ==> l1[k] == l0[k])
+                &&& exists|m: &str| #![trigger fed::<&str>(old(conn_state).user_state.source@, m)] m@ == "JOIN "@ + chname_str@ && l1[l0.len() as int] == fed::<&str>(old(conn_state).user_state.source@, m)
+                &&& (ch.topic is Some ==> l1.len() > l0.len() + 1 && l1[l0.len() as int + 1] == fed(self.config.name@, Reply::RplTopic332 {
+                        client: str_of(client_name_spec(old(conn_state).user_state)), channel: *chname_str, topic: str_of(ch.topic->0.topic@) }))
+            }), // @prop C04
+//@open
+        broadcast use group_hash_axioms, bridge, string_eq;
+        let ghost l0 = conn_state.stream.log();
+//@before ~self\.send_names_from_channel\(
+                    let ghost l_mid = conn_state.stream.log();
+                    proof {
+                        assert(chanobj == state.channels@[sk(*chname_str)]);
+                        assert forall|n: String| chanobj.users@.contains_key(n) implies state.users@.contains_key(n) by { assert(member(*state, n, sk(*chname_str))); }
+                    }
+//@loop ~for nick in chanobj\.users\.keys\(\) iter=it4
+                        invariant
+                            *join, conn_same_but_stream(*conn_state, *old(conn_state)),
+                            forall|n: String| chanobj.users@.contains_key(n) ==> state.users@.contains_key(n),
+                            it4.seq().no_duplicates(), it4.seq().len() == chanobj.users@.dom().len(),
+                            forall|q: String| chanobj.users@.dom().contains(q) ==> exists|i: int| 0 <= i < it4.seq().len() && *#[trigger] it4.seq()[i] == q,
+//@after ~for nick in chanobj\.users\.keys\(\)
+                        broadcast use group_hash_axioms, bridge, string_eq, lemma_cover_is_exact;
+                        proof { assert(chanobj.users@.dom().contains(*nick)); }
+//@end
+}
